@@ -33,6 +33,7 @@ import (
 //   bond <i> <rate>                -> true|false  Bonder.Bond directly   (raw sequences only)
 //   unbond <i>                     -> ok          Bonder.Unbond directly
 //   build <rate> <i>*              -> b <bonded i,…> Node.BuildChunk; the txs handed to the inner DSMR
+//   buildfail <rate> <i>*          -> e <bonded i,…> the same, but the inner DSMR.BuildChunk returns an error
 //   accept <ts> <i>*               -> ok          Node.Accept of a block with timestamp ts executing txs
 // every output is followed by ` p=<pending0>,<pending1> rec=<i:fee,…> heap=<i,…>` read back from
 // the bonder db / the node's pending heap.
@@ -98,10 +99,17 @@ var _ state.Mutable = c38Mutable{}
 type c38DSMR struct {
 	built  []*chain.Transaction
 	accept []*chain.Transaction
+	fail   bool // scripted: the next inner BuildChunk refuses the chunk (duplicate chunk / rate limit / storage error)
 }
+
+var errC38Inner = errors.New("inner dsmr refuses the chunk")
 
 func (d *c38DSMR) BuildChunk(_ context.Context, txs []*chain.Transaction, _ int64, _ codec.Address) error {
 	d.built = txs
+	if d.fail {
+		d.fail = false
+		return errC38Inner
+	}
 	return nil
 }
 
@@ -278,7 +286,7 @@ func TestVerifC38(t *testing.T) {
 				t.Fatal(err)
 			}
 			r.Emit(l, "ok"+s.observe())
-		case f[0] == "build" && len(f) >= 2 && args[0].isUint:
+		case (f[0] == "build" || f[0] == "buildfail") && len(f) >= 2 && args[0].isUint:
 			txs, is, ok := getTxs(args[1:])
 			if !ok {
 				bad()
@@ -287,8 +295,9 @@ func TestVerifC38(t *testing.T) {
 			rate := args[0].u
 			before := [2]uint64{s.pending(0), s.pending(1)}
 			s.inner.built = nil
-			if err := s.node.BuildChunk(ctx, s.view, txs, 0, codec.EmptyAddress, rate); err != nil {
-				t.Fatal(err)
+			s.inner.fail = f[0] == "buildfail"
+			if err := s.node.BuildChunk(ctx, s.view, txs, 0, codec.EmptyAddress, rate); (err != nil) != (f[0] == "buildfail") || (err != nil && !errors.Is(err, errC38Inner)) {
+				t.Fatalf("%s: BuildChunk returned %v", l, err)
 			}
 			// which input positions were passed on (built is a subsequence of txs)
 			var bondedIdx []string
@@ -308,7 +317,16 @@ func TestVerifC38(t *testing.T) {
 			if len(bondedIdx) > 0 {
 				out = strings.Join(bondedIdx, ",")
 			}
-			r.Emit(l, "b "+out+s.observe())
+			if f[0] == "buildfail" {
+				// the txs handed to the failing inner build were bonded all the same: they count as
+				// bonded-and-unsettled below and must be released by accept/expiry
+				r.Emit(l, "e "+out+s.observe())
+				if len(bondedPos) > 0 {
+					r.Count("failed-build-with-bonds")
+				}
+			} else {
+				r.Emit(l, "b "+out+s.observe())
+			}
 			// oracle bookkeeping: a tx passed on is bonded; if it was already unsettled this is a re-bond
 			for _, p := range bondedPos {
 				i := is[p]
@@ -443,6 +461,22 @@ func c38Generate(r *verifh.Run) []string {
 	add("accept 50 0")
 	add("build 1 0")
 	add("accept 101")
+	// the inner DSMR refuses the chunk after the txs were bonded: they must still be released
+	add("reset")
+	add("deftx 0 0 %d 100", s0)
+	add("deftx 1 0 %d 150", s0)
+	add("setmax 0 1000000")
+	add("buildfail 1 0 1")
+	add("accept 120")
+	add("accept 200")
+	add("reset")
+	add("deftx 0 1 %d 100", s0)
+	add("setmax 1 %d", s0)
+	add("buildfail 1 0")
+	add("accept 50 0")
+	add("buildfail 1 0")
+	add("build 1 0")
+	add("accept 101")
 	// raw bonder: double bond, single unbond
 	add("reset")
 	add("deftx 0 0 %d 100", s0)
@@ -518,6 +552,8 @@ func c38Generate(r *verifh.Run) []string {
 			}
 			c := r.RNG.Intn(100)
 			switch {
+			case c < 8:
+				add("buildfail %d%s", rt, pickTxs(4))
 			case c < 40:
 				add("build %d%s", rt, pickTxs(5))
 			case c < 75:
